@@ -245,6 +245,9 @@ def prop_C04(repo, tier):
     add_sites(res, results, 'copy-mutation', 'SPLICE')
     add_findings(res, results, {'PAYLOAD-PURE', 'PAYLOAD-ALL', 'MSG-READONLY', 'SPLICE'})
     add_findings(res, results, {'NO-SHARE'}, want=lambda c, f: 'stays referenced by the message object' in f['detail'], as_rule=lambda f: 'PAYLOAD-PURE')
+    # a loop over carried elements that is left early (return / break after a warned element) never delivers the remaining ones
+    add_findings(res, results, {'NO-EARLY-EXIT'}, want=lambda c, f: schema.ROLES[c][0] in ('INSERT', 'APPEND', 'REPLACE', 'SEND', 'META'),
+                 as_rule=lambda f: 'PAYLOAD-ALL')
     # index typestate on the deep copy (conversion) belongs here
     add_findings(res, results, IDX_RULES, want=lambda c, f: 'convert' in f['func'] or f['func'].startswith('RunningOrderReplace'),
                  as_rule=lambda f: 'SPLICE')
